@@ -37,6 +37,11 @@ def enc(x):
         return "T[" + ",".join(enc(e) for e in x) + "]"
     if x is None:
         return "N"
+    if callable(x) and isinstance(getattr(x, "__module__", None), str) and isinstance(getattr(x, "__name__", None), str):
+        # a function object: named by defining module and name, but only if that name really resolves to this very object
+        m = sys.modules.get(x.__module__)
+        if m is not None and getattr(m, x.__name__, None) is x:
+            return "c" + (x.__module__ + "." + x.__name__).encode("utf-8").hex()
     return "?" + t.__name__
 
 
@@ -83,6 +88,16 @@ def f6(a, b, c, d, e, f):
 def fv(*a):
     _w("F fv " + enc(a))
     return a
+
+
+def gv(*a):
+    _w("F gv " + enc(a))
+    return a
+
+
+def gv1(a, *rest):
+    _w("F gv1 " + enc((a,) + rest))
+    return (a,) + rest
 
 
 def note(tag):
